@@ -7,8 +7,10 @@
  * symbolic time; NSTEP loop iterations at symbolic non-decreasing times (late
  * wake-ups, several occurrences per step); after every step any supervised
  * child may exit.  Ground truth: ORC-cal epoch seconds of each occurrence. */
-#define ECHS_TASK_POOL_INIZ	(2U)
-#define ECHS_CHLD_POOL_INIZ	(4U)
+#define ECHS_TASK_POOL_INIZ	(1U)
+#define ECHS_CHLD_POOL_INIZ	(1U)
+#define ENV_MAXC 2
+#define ENV_MAXP 2
 #include "echsd_env.h"
 #include "cal.h"
 
@@ -88,8 +90,8 @@ void harness(void)
 		} else {
 			CHECK(got == 0U, "no run is started unless an occurrence has come due (never early, never twice)");
 		}
-		if (got && before < ENV_MAXSPAWN) {
-			CHECK(!env_spawn[before].norun, "the run is a real run");
+		if (got) {
+			CHECK(!env_last_spawn.norun, "the run is a real run");
 		}
 		/* a supervised child may exit now */
 		ASSUME(in.exit[s] >= 0 && in.exit[s] <= ENV_MAXC);
